@@ -231,6 +231,12 @@ def gen_geometry(repo):
             m.translate_geometry(cls, "sample_count", f"{tag}_set_sample_count", [("value", OPT)], ["value"], attr_map=geom, setter=True,
                                  extra_params=SELF[:1] + SELF[2:] + [("has_stamps", "bool"), ("n_stamps", "int")])
         m.translate_geometry(cls, "capacity", f"{tag}_set_capacity", [("value", OPT)], ["value"], attr_map=geom, setter=True, extra_params=SELF)
+        if tag == "digital":
+            tgeom = {"self.sample_count": ("self_count", "int"), "self.signal_count": ("self_signals", "int"),
+                     "expected_waveform.signal_count": ("exp_signals", "int"), "expected_waveform.sample_count": ("exp_count", "int")}
+            m.translate_geometry(cls, "test", "digital_test_window", [("start_sample", OPT), ("expected_start_sample", OPT), ("sample_count", OPT)],
+                                 ["start_sample", "expected_start_sample", "sample_count"], attr_map=tgeom,
+                                 extra_params=[("self_count", "int"), ("self_signals", "int"), ("exp_count", "int"), ("exp_signals", "int")])
         if out is None:
             out = m
         else:
